@@ -102,6 +102,12 @@ CLAIMED.update({
                 note="LLVM's optimiser/codegen ('compiled code returns') is outside a solver's reach: it is exercised concretely only - counterexamples are replayed with MCJIT, and the model itself is validated against native runs on boundary inputs (validate-model obligations; a mismatch is a harness error, never a violation). Modules the backend refuses (fcmp _false/_true raise in llvmlite) are outside the property."),
 })
 
+CLAIMED.update({
+    "C10": dict(cat="bounded_symbolic", design="DESIGN.md §4 C10",
+                text="Unit-symbolic (M1) on generated IRDL definitions: for each construct (operands, results, regions, successors) every single/optional/variadic definition sequence up to length 3 (thorough 4) x every admissible option (none, SameVariadic*Size, AttrSized*Segments as property/attribute) is turned into a real op class; an instance with n elements (n forked 0..5, thorough 0..8) carries SYMBOLIC i32 segment sizes and the real OpDef.verify decides acceptance; z3 shows acceptance <=> the property's segment rules (non-negative, per-kind, sum = n) for all sizes, and that accepted ops' accessors return exactly the reference slices. Constraint families give operand/result/property types SYMBOLIC integer widths under VarConstraint/RangeVarConstraint/Eq/AnyOf/Base constraints and decide acceptance <=> reference formula; constructor families build through the generated build() and check verify + accessors; property/attribute presence family.",
+                note="Definition shapes and list lengths are enumerated (they are Python class structure); the solver dimension is segment sizes and type widths. The operations of the registered dialects are not covered (no symbolic dimension). Sizes are bounded to [-2,7] (thorough [-3,10])."),
+})
+
 NOT_APPLICABLE = {
     "C05": "custom assembly formats: the quantifier is over ~80 dialects' op definitions/format programs; no data dimension for a solver beyond what C04/C06 cover for leaves (DESIGN §5)",
     "C17": "pass x corpus-module cross product: deciding it means running each pair concretely; no symbolic dimension (DESIGN §5)",
